@@ -104,13 +104,13 @@ func (a *AttrConditionPlanner) aggregator(main sql.ISelect) error {
 		return nil
 	}
 
+	// exactly one scope prefix is stripped, as getTerm does for a condition: `span.resource.q` is the span
+	// attribute "resource.q", not "q"
 	if strings.HasPrefix(a.AggregatedAttr, "span.") {
 		a.AggregatedAttr = a.AggregatedAttr[5:]
-	}
-	if strings.HasPrefix(a.AggregatedAttr, "resource.") {
+	} else if strings.HasPrefix(a.AggregatedAttr, "resource.") {
 		a.AggregatedAttr = a.AggregatedAttr[9:]
-	}
-	if strings.HasPrefix(a.AggregatedAttr, ".") {
+	} else if strings.HasPrefix(a.AggregatedAttr, ".") {
 		a.AggregatedAttr = a.AggregatedAttr[1:]
 	}
 	s = append(s, sql.NewCol(&sqlAttrValue{a.AggregatedAttr}, "agg_val"))
